@@ -255,7 +255,9 @@ def g_sparse(v: dict, dtype=float):
     shape = tuple(v["shape"])
     if len(v["subs"]) == 0:
         return ttb.sptensor(shape=shape)
-    subs = lay(np.array(v["subs"], dtype=int).reshape(len(v["subs"]), len(shape)))
+    # subscripts may be stored with a narrow integer type when every mode size fits ("strided" presentation)
+    sdt = np.int8 if (_LAYOUT == "strided" and all(s <= 127 for s in shape)) else int
+    subs = lay(np.array(v["subs"], dtype=sdt).reshape(len(v["subs"]), len(shape)))
     vals = lay(np.array(v["vals"], dtype=_dt(v["vals"], dtype)).reshape(-1, 1))
     return ttb.sptensor(subs, vals, shape)
 
